@@ -1,5 +1,6 @@
 import AldorVerif.Model.Scan
 import AldorVerif.Model.Exit
+import AldorVerif.Model.IfState
 /-! line protocol for the `scan` module (driver side; not part of the model)
 
 `S <hex of the text>`  → the model's token list, one blank-separated item per token:
@@ -58,8 +59,34 @@ def tagTok : Tok → String
   | .newline => "nl"
   | .number => "number"
 
+/-- `I <line>*` with lines `t<id> if<p> ei<p> el en as<p> un<p>` → the includer model's events -/
+def parseLine (t : String) : Option AldorVerif.IfState.Line :=
+  let num (k : Nat) : Option Nat := (t.drop k).toString.toNat?
+  if t == "el" then some .elseD
+  else if t == "en" then some .endifD
+  else if t.startsWith "if" then (num 2).map .ifD
+  else if t.startsWith "ei" then (num 2).map .elseifD
+  else if t.startsWith "as" then (num 2).map .assertD
+  else if t.startsWith "un" then (num 2).map .unassertD
+  else if t.startsWith "t" then (num 1).map .text
+  else none
+
+def showEv : AldorVerif.IfState.Ev → String
+  | .line i => "L" ++ toString i
+  | .ifEof => "EOF"
+  | .unbalElse => "UELSE"
+  | .unbalElseif => "UELSEIF"
+  | .unbalEndif => "UENDIF"
+
 def line (toks : List String) : String :=
   match toks with
+  | "I" :: ls =>
+    match ls.mapM parseLine with
+    | some lines =>
+      let evs := AldorVerif.IfState.runFile [] lines
+      let d := AldorVerif.IfState.depthAtEof 0 lines
+      " ".intercalate (evs.map showEv) ++ "\tdepth=" ++ (match d with | some k => toString k | none => "stray-endif")
+    | none => "bad-op"
   | ["S", h] =>
     match unhex h.toList with
     | some src =>
